@@ -15,6 +15,7 @@
 From Coq Require Import ZArith NArith List Bool Reals Lra Lia Sorted.
 From Coquelicot Require Import Coquelicot.
 From SV Require Import Base.Num Base.Outcome Model.Poly Proofs.PolyLemmas Proofs.Deriv Proofs.PolyLemmasWf.
+From SV Require Import Model.PolyFast Proofs.PolyLemmasFast.
 Import ListNotations.
 Local Open Scope R_scope.
 
@@ -161,6 +162,22 @@ Check c03_partial_derivative_wf :
   forall (ts : list (term R)) (v : name),
     wf_terms ts -> wf_poly (partial_derivative ts v).
 Print Assumptions c03_partial_derivative_wf.
+
+(* correspondence aid: the binary-index variant the drivers run at degree > 2000 is the same function, for every Num instance *)
+Theorem c03_fast_model :
+  forall (T : Type) (NT : Num T) (p : spoly T) (v : name),
+    s_derivate_univariate_fast p = s_derivate_univariate p /\
+    s_integral_univariate_fast p = s_integral_univariate p /\
+    s_derivate_multivariate_fast p v = s_derivate_multivariate p v /\
+    s_integral_multivariate_fast p v = s_integral_multivariate p v.
+Proof. exact (@Proofs.PolyLemmasFast.fast_model_eq). Qed.
+Check c03_fast_model :
+  forall (T : Type) (NT : Num T) (p : spoly T) (v : name),
+    s_derivate_univariate_fast p = s_derivate_univariate p /\
+    s_integral_univariate_fast p = s_integral_univariate p /\
+    s_derivate_multivariate_fast p v = s_derivate_multivariate p v /\
+    s_integral_multivariate_fast p v = s_integral_multivariate p v.
+Print Assumptions c03_fast_model.
 
 (* non-vacuity: the hypotheses of c03_partial hold for 3 x^2 y^-1 + 2 x^(1/2) at x = 3/2, y = 2;
    wf_poly holds for a two-variable polynomial and for a constant one *)
